@@ -40,8 +40,7 @@ def wrapIdx (k : Int) (n : Nat) : Option Nat :=
   else if -(n : Int) ≤ k ∧ k < 0 then some (k + (n : Int)).toNat
   else none
 
-/-- `u @ v` for two vectors. -/
-def dot [Add α] [Mul α] [Zero α] (u v : List α) : α := (List.zipWith (· * ·) u v).sum
+-- `dot` (`u @ v`) is defined in Core/Arr.lean
 
 /-! ### matrix helpers (a matrix is a list of rows) -/
 
